@@ -259,6 +259,17 @@ def _finish(rng, case, styled=True):
             for row in _all_rows(case):
                 if rng.random() < 0.3:
                     row[j] = _decorate(rng, row[j])
+        # columns that DO get wrapped: a styled cell that can never be wrapped itself (one visible character,
+        # so it fits any column width >= 1) - the tags must not count when the column is measured again
+        rows = _all_rows(case)
+        unsafe = [j for j in range(case["n"]) if j not in safe]
+        if unsafe and len(rows) >= 2 and rng.random() < 0.5:
+            j = rng.choice(unsafe)
+            lens = [len(visible(r[j]).rstrip()) for r in rows]
+            longest = lens.index(max(lens))
+            for i, r in enumerate(rows):
+                if i != longest and rng.random() < 0.6:
+                    r[j] = "<%s>%s</>" % (rng.choice(TAGS), rng.choice("xyz"))
     case["probes"] = _share_probes(rng, case)
     return case
 
